@@ -534,6 +534,9 @@ func nhExtras(p *aftpb.Afts_NextHop) [][2]uint64 {
 	if p.GetPopTopLabel() != nil {
 		x = append(x, [2]uint64{3, map[bool]uint64{true: 1, false: 2}[p.GetPopTopLabel().GetValue()]})
 	}
+	if len(p.GetEncapHeader()) > 0 {
+		x = append(x, [2]uint64{4, uint64(len(p.GetEncapHeader()))})
+	}
 	return x
 }
 
